@@ -1,0 +1,29 @@
+//go:build verif
+
+package limiter
+
+import "sync/atomic"
+
+// Read-only accessors for the verification harness in /verif (build tag "verif" only).
+
+// VerifInFlight returns the limiter's in-flight gauge.
+func (l *DefaultLimiter) VerifInFlight() int64 {
+	return atomic.LoadInt64(l.inFlight)
+}
+
+// VerifNextUpdateTime returns the end of the current sampling window.
+func (l *DefaultLimiter) VerifNextUpdateTime() int64 {
+	l.mu.RLock()
+	defer l.mu.RUnlock()
+	return l.nextUpdateTime
+}
+
+// VerifBacklogLen returns the number of callers in the backlog.
+func (l *QueueBlockingLimiter) VerifBacklogLen() int {
+	return int(l.backlog.len())
+}
+
+// VerifOrdering returns the ordering the backlog actually uses.
+func (l *QueueBlockingLimiter) VerifOrdering() QueueOrdering {
+	return l.backlog.ordering
+}
